@@ -183,18 +183,19 @@ PROPS = {
     ),
     "C03": dict(
         level="proof",
-        modules=["Exmex.Props.C03", "Exmex.Props.C03ToDeep", "Exmex.Props.C02", "Exmex.Props.C02Deep", "Exmex.Props.C03Parse", "Exmex.Props.C03Any", "Exmex.Props.C03Conv", "Exmex.Proofs.AnyTextCex"],
+        modules=["Exmex.Props.C03", "Exmex.Props.C03ToDeep", "Exmex.Props.C02", "Exmex.Props.C02Deep", "Exmex.Props.C03Parse", "Exmex.Props.C03Any", "Exmex.Props.C03Conv", "Exmex.Props.C03Listing", "Exmex.Proofs.AnyTextCex"],
         theorems=["Exmex.C03.fromDeep_sound", "Exmex.C03.toDeep_sound", "Exmex.C02.deep_compile_sound",
                   "Exmex.C03.deep_parse_eval_eq_denote", "Exmex.C03.flat_deep_parse_agree",
                   "Exmex.C03.flat_deep_agree_any", "Exmex.C03.flatWo_deep_agree_any", "Exmex.C03.flat_deep_agree_any'", "Exmex.C03.accepted_chain",
                   "Exmex.C03.flat_deep_agree_any_unrestricted_false", "Exmex.AnyTextCex.differ₁",
-                  "Exmex.C03.flat_conversions_any", "Exmex.C03.deep_conversions_any"],
+                  "Exmex.C03.flat_conversions_any", "Exmex.C03.deep_conversions_any",
+                  "Exmex.C03.flat_listings_sorted", "Exmex.C03.deep_listings_sorted", "Exmex.C03.flat_listings_from_text", "Exmex.C03.deep_listings_from_text", "Exmex.C03.flat_folded_listing_subset"],
         level_text=("kernel-checked: flat_deep_parse_agree (renderings of well-formed expressions), fromDeep_sound / toDeep_sound (conversions in both directions, any number "
                     "of times), deep_parse_eval_eq_denote; flat_conversions_any / deep_conversions_any: from EVERY accepted text (also sloppy ones) converting to the other form and back keeps variables and value; for ARBITRARY strings: flat_deep_agree_any - every text accepted by both parsers in which no operand directly "
                     "follows an operand (equivalently, for flat-accepted texts: no group starts with a binary-only operator, flat_deep_agree_any') is the token stream of a "
                     "well-formed expression (accepted_chain), hence both forms list the same variables and agree at every assignment. Without that condition the claim is "
                     "FALSE - flat_deep_agree_any_unrestricted_false, differ_1: `*(1+2)(3)` is 5 in the flat and 9 in the deep form - a genuine defect of the library "
-                    "(known finding D13, not repaired: prefix forms like `/ 1 2 * 3` are pinned by the test-suite). Listings: run-time bounds"),
+                    "(known finding D13, not repaired: prefix forms like `/ 1 2 * 3` are pinned by the test-suite). Listings: flat/deep_listings_sorted (strictly sorted = sorted and duplicate-free, every expression), flat/deep_listings_from_text (nothing absent from the text, every accepted text), flat_folded_listing_subset; that they contain every operator applied to a variable-dependent operand is judged at run time"),
         rule="random chains x tables x renderings: FlatEx::parse, DeepEx::parse, to_deepex, from_deepex and random conversion histories of length 0..6; sloppy texts (groups starting with binary operators, operands next to each other, nested) on which flat and deep parse must agree whenever both accept; variable lists and symbolic values compared with the documented value; operator listings of both forms checked to be sorted, duplicate-free, to contain every operator applied to a variable-dependent operand and nothing absent from the text; non-trivial = at least two binary operators; distinct by request hash",
         kinds=[dict(kind="anytext", quick=12000, thorough=400000, corr=["acc", "fv", "wv", "dv"], oracle=[],
                     oracle_const=[("agree", "ok|-"), ("conv", "ok")], nontrivial=lambda req, A, B: A.get("acc", "") == "ooo"),
